@@ -28,6 +28,9 @@ PROP = dict(
         "Comdex.C18.locker_calc_books_interest", "Comdex.C18.locker_move_books_interest", "Comdex.C18.rate_change_restarts_clock",
         "Comdex.C18.zero_rate_window_earns_nothing", "Comdex.C18.locker_more_frequent_triggering_not_more",
         "Comdex.C18.accrual_subadditive_across_rate_change",
+        # state level: the clocks of the x/lend positions (LastInteractionTime, own index copy)
+        "Comdex.C18.lend_interaction_restarts_clock", "Comdex.C18.borrow_two_interactions_not_more",
+        "Comdex.C18.lend_reward_interaction_restarts_clock",
     ],
     harness_tests=["TestC18"],
     trusted_base=[KERNEL_TB, HARNESS_TB, DEC_TB,
